@@ -240,7 +240,7 @@ def files_sx(files):
     return out
 
 
-def engine_sx(flags, root, files, script, docopt='accept', fuel=8):
+def engine_sx(flags, root, files, script, docopt='accept', fuel=33):
     return sx(['engine', ['q'] + list(flags), hx(root), files_sx(files), hx(script), ['vars'], docopt, fuel])
 
 
@@ -260,7 +260,7 @@ def parse_events(out):
 
 def run_models(cases, flags):
     """cases: list of dict(files=..., script=..., docopt=...) with root placeholder 'ROOT'"""
-    lines = [engine_sx(flags, "ROOT", c["files"], c.get("script", "main.rh"), c.get("docopt", "accept"), c.get("fuel", 8)) for c in cases]
+    lines = [engine_sx(flags, "ROOT", c["files"], c.get("script", "main.rh"), c.get("docopt", "accept"), c.get("fuel", 33)) for c in cases]
     return [parse_events(o) for o in C.run_oracle(lines)]
 
 
